@@ -143,22 +143,27 @@ class Engine:
             _CUR = path
             res = exc = None
             try:
-                try:
-                    res = fn(path)
-                except PathAbort:
-                    self.stats.aborted += 1
-                    continue
-                except (Unsupported, Inconclusive, HarnessError):
-                    raise
-                except Exception as e:  # an exception escaping the harness function itself
-                    exc = e
-            finally:
+                res = fn(path)
+            except PathAbort:
+                self.stats.aborted += 1
                 _CUR = None
+                continue
+            except (Unsupported, Inconclusive, HarnessError):
+                _CUR = None
+                raise
+            except Exception as e:  # an exception escaping the harness function itself
+                exc = e
             self.stats.paths += 1
             n += 1
             if n > self.max_paths:
+                _CUR = None
                 raise Inconclusive("path budget exceeded (%d)" % self.max_paths)
-            yield path, res, exc
+            # the path stays current while the harness poses its assertions (definitional
+            # fresh symbols of the spec side are added to this path's condition)
+            try:
+                yield path, res, exc
+            finally:
+                _CUR = None
 
 
 class Path:
